@@ -119,6 +119,9 @@ type poolSpec struct {
 	suMs              int
 	blk               string // "" | newgun | warm | close | sched | bind | prov | agg | shot: that call blocks (sched.go)
 	blkK              int
+	rs                string // "" (all tokens at once) | step (tokens rsMs apart: the Waiter's timer path) | past (tokens 3 s overdue) | late (use.go)
+	rsMs              int
+	do                bool // discard_overflow
 }
 
 type plan struct {
@@ -248,6 +251,22 @@ func parsePool(s string) (poolSpec, error) {
 			if err == nil && (ps.suMs < 0 || ps.suMs > 1000) {
 				return ps, fmt.Errorf("bad su %q", v)
 			}
+		case "rs":
+			switch {
+			case v == "once" || v == "-":
+			case v == "past" || v == "late":
+				ps.rs = v
+			case strings.HasPrefix(v, "step"):
+				ps.rs = "step"
+				ps.rsMs, err = strconv.Atoi(v[4:])
+				if err == nil && (ps.rsMs < 0 || ps.rsMs > 200) {
+					return ps, fmt.Errorf("bad rs %q", v)
+				}
+			default:
+				return ps, fmt.Errorf("bad rs %q", v)
+			}
+		case "do":
+			ps.do = v == "1"
 		case "blk":
 			if v == "-" {
 				break
@@ -496,6 +515,9 @@ type poolRt struct {
 	schedCall  atomic.Int64
 	closeCalls atomic.Int64
 	busy       atomic.Int64 // calls of this pool's mock components that are in progress
+	acqFail    atomic.Int64 // Acquire calls that found the provider dry (use.go)
+	discarded  atomic.Int64 // samples reported by the engine itself instead of a shot (discard_overflow)
+	scheds     []*schedObs  // every schedule NewRPSSchedule handed out (guarded by mu)
 
 	mu   sync.Mutex
 	guns []*gunBase
@@ -611,6 +633,9 @@ func (m provMock) Run(ctx context.Context, _ core.ProviderDeps) error {
 
 func (m provMock) Acquire() (core.Ammo, bool) {
 	a, ok := <-m.p.ammoCh
+	if !ok {
+		m.p.acqFail.Add(1)
+	}
 	return a, ok
 }
 
@@ -641,7 +666,10 @@ func (m aggMock) Run(ctx context.Context, _ core.AggregatorDeps) error {
 	}
 }
 
-func (m aggMock) Report(core.Sample) {
+func (m aggMock) Report(smp core.Sample) {
+	if _, mock := smp.(struct{}); !mock {
+		m.p.discarded.Add(1) // not a sample of one of our guns: the engine's own "discarded shot" sample
+	}
 	n := m.p.reports.Add(1)
 	if m.p.spec.agg.pos == "mid" && int(n) >= m.p.spec.agg.k {
 		m.p.aggOnce.Do(func() { close(m.p.aggTrig) })
@@ -815,7 +843,7 @@ func (p *poolRt) newSched() (core.Schedule, error) {
 	if k == p.spec.failSched {
 		return nil, p.verr("sched")
 	}
-	return schedule.NewOnce(int64(p.spec.shots)), nil
+	return p.observeSched(p.rpsSchedule()), nil
 }
 
 // ---------------------------------------------------------------- classification
@@ -1023,6 +1051,7 @@ func runCase(input string) string {
 			Aggregator:      aggMock{p},
 			NewGun:          p.newGun,
 			RPSPerInstance:  ps.per,
+			DiscardOverflow: ps.do,
 			NewRPSSchedule:  p.newSched,
 			StartupSchedule: p.startup(),
 		})
@@ -1313,6 +1342,7 @@ func runCase(input string) string {
 		p.mu.Unlock()
 		sort.Strings(es)
 		fmt.Fprintf(&b, " p%d.guns=%d p%d.closes=%s p%d.errs=%s", i, len(cl), i, joinOrDash(cls), i, joinOrDash(es))
+		fmt.Fprintf(&b, " p%d.use=%s", i, p.useObs())
 		if p.spec.rg != "" {
 			// all real-gun pools of a case shoot at the same server: the open connections are reported with each
 			fmt.Fprintf(&b, " p%d.gcl=%d p%d.gwu=%d p%d.icl=%d p%d.srvopen=%d", i, b2i(p.gcl), i, b2i(p.gwu), i, b2i(p.icl), i, srvOpen)
